@@ -190,6 +190,12 @@ FIXED = {
                                               ('alloc_put', 39, cons(2, 1, [(2, [(0, 3)])]))],
          [(0, 'cons', 2, 1), (1, 'cons', 2, 1)], None,
          [('alloc_put', 39, cons(3, None, [(1, [(0, 1)])])), ('alloc_put', 39, cons(3, 1, [(1, [(0, 1)])]))]),
+        # an allocation write over TWO providers that also changes project / user / type of an existing consumer, overtaken by a
+        # guarded write to the provider listed SECOND: refused (409) or complete - never accepted with the old attributes
+        # (seed C07-h: the whole transaction function retried with the consumer objects already changed in memory)
+        ('attr-change-two-providers-vs-inventory-put', [('alloc_put', 39, dict(cons(2, 1, [(1, [(0, 1)]), (2, [(0, 2)])]), proj=2, user=2, type=2)),
+                                                        ('inv_put', 39, 2, 2, inv(0, 16))],
+         [(0, 'cons', 2, 1), (1, 'rp', 2, 2)]),
         ('racing-create-older-version', [('alloc_put', 38, dict(cons(5, None, [(1, [(0, 1)])]), type=2)),
                                          ('alloc_put', 30, cons(5, None, [(1, [(0, 1)])], 30))],
          [(0, 'cons', 5, None), (1, 'cons', 5, None)]),
@@ -211,6 +217,12 @@ FIXED = {
         ('reshape-both-sections-vs-claim', [('reshape', 39, [(1, 3, [inv(0, 8), inv(2, 40)])], [cons(4, None, [(1, [(0, 1)])])]),
                                             ('alloc_put', 39, cons(5, None, [(1, [(2, 50)])]))],
          [(0, 'rp', 1, 3)]),
+        # an allocation write over TWO providers that also changes project / user / type of an existing consumer, overtaken by a
+        # guarded write to the provider listed SECOND: refused (409) or complete - never accepted with the old attributes
+        # (seed C07-h: the whole transaction function retried with the consumer objects already changed in memory)
+        ('attr-change-two-providers-vs-inventory-put', [('alloc_put', 39, dict(cons(2, 1, [(1, [(0, 1)]), (2, [(0, 2)])]), proj=2, user=2, type=2)),
+                                                        ('inv_put', 39, 2, 2, inv(0, 16))],
+         [(0, 'cons', 2, 1), (1, 'rp', 2, 2)]),
         ('capacity-race', [('alloc_put', 39, cons(4, None, [(1, [(0, 5)])])), ('alloc_put', 39, cons(5, None, [(1, [(0, 5)]), (2, [(0, 1)])]))], []),
         ('null-put-vs-gen0-put', [('alloc_put', 39, cons(5, None, [(1, [(0, 2)])])), ('alloc_put', 39, cons(5, 0, [(2, [(0, 3)])]))],
          [(0, 'cons', 5, None), (1, 'cons', 5, 0)]),
